@@ -24,6 +24,7 @@ import (
 	streamconfig "lunar/engine/streams/config"
 	streamfilter "lunar/engine/streams/filter"
 	internaltypes "lunar/engine/streams/internal-types"
+	publictypes "lunar/engine/streams/public-types"
 	streamtypes "lunar/engine/streams/types"
 
 	"verif/harness/internal/engine"
@@ -110,6 +111,10 @@ func userFlows(fs []flowSpec) []flowSpec {
 
 // selections of the real FilterTree over all load orders: sorted user-flow names, "!" for a load that failed
 func possible(fs []flowSpec, t txn) []string {
+	return possibleWith(fs, func() publictypes.APIStreamI { return t.stream("p") })
+}
+
+func possibleWith(fs []flowSpec, mk func() publictypes.APIStreamI) []string {
 	set := map[string]bool{}
 	for _, p := range allPerms(len(fs)) {
 		ft := streamfilter.NewFilterTree()
@@ -124,7 +129,7 @@ func possible(fs []flowSpec, t txn) []string {
 			set["!"] = true
 			continue
 		}
-		r, _ := ft.GetFlow(t.stream("p"))
+		r, _ := ft.GetFlow(mk())
 		var u []string
 		if r != nil {
 			if l, ok := r.GetUserFlow(); ok {
@@ -157,6 +162,7 @@ func selKey(u []string) string {
 type engState struct {
 	e      *engine.Engine
 	failed bool
+	err    error
 }
 
 func (st *state) engine() *engState {
@@ -192,6 +198,9 @@ func (st *state) engine() *engState {
 }
 
 func (st *state) closeEngine() {
+	if st.engEarly != nil && st.engEarly.e != nil {
+		st.engEarly.e.Close()
+	}
 	if st.eng != nil && st.eng.e != nil {
 		st.eng.e.Close()
 	}
